@@ -425,7 +425,7 @@ package modbus
 //@     invariant forall k in 0..rangeindex+1 :: deref(bs)[k].address != address
 
 //@ func (g *builderSlotGroup) AddField(f Field)
-//@   requires g != nil && groupInv(g) && fieldOfGroup(g, f)
+//@   requires g != nil && groupInv(g) && fieldOfGroup(g, f) && fieldOK(f)
 //@   safety[C06,C10]
 //@   modifies hdr(g.slots), g.slots
 //@   ensures[C06] groupInv(g)
@@ -435,3 +435,40 @@ package modbus
 //@   ensures[C06] forall k in 0..old(len(g.slots)) :: g.slots[k].address == old(g.slots[k].address) && (g.slots[k].address != f.Address ==> g.slots[k].size == old(g.slots[k].size) && len(g.slots[k].fields) == old(len(g.slots[k].fields)))
 //@   ensures[C06] forall k in 0..old(len(g.slots)) :: forall m in 0..old(len(g.slots[k].fields)) :: g.slots[k].fields[m] == old(g.slots[k].fields[m])
 //@   ensures[C06] forall k in 0..old(len(g.slots)) :: g.slots[k].address == f.Address ==> len(g.slots[k].fields) == old(len(g.slots[k].fields)) + 1 && g.slots[k].fields[len(g.slots[k].fields)-1] == f && int(g.slots[k].size) == ite(fieldRegs(f) > old(int(g.slots[k].size)), fieldRegs(f), old(int(g.slots[k].size)))
+
+//@ extern sort.Sort(data sort.Interface)
+//@   requires dyntype(data) == slotsSorter
+//@   modifies data.(slotsSorter)
+//@   modifies sortCalls
+//@   ghostset sortCalls := old(sortCalls) + 1
+//@   ensures forall k in 0..len(data.(slotsSorter))-1 :: data.(slotsSorter)[k].address <= data.(slotsSorter)[k+1].address
+//@   ensures forall k in 0..len(data.(slotsSorter)) :: 0 <= sortSrc(sortCalls, k) && sortSrc(sortCalls, k) < len(data.(slotsSorter)) && sortPos(sortCalls, sortSrc(sortCalls, k)) == k
+//@   ensures forall k in 0..len(data.(slotsSorter)) :: 0 <= sortPos(sortCalls, k) && sortPos(sortCalls, k) < len(data.(slotsSorter)) && sortSrc(sortCalls, sortPos(sortCalls, k)) == k
+//@   ensures forall k in 0..len(data.(slotsSorter)) :: data.(slotsSorter)[k].address == old(data.(slotsSorter)[now(sortSrc(sortCalls, k))].address) && data.(slotsSorter)[k].size == old(data.(slotsSorter)[now(sortSrc(sortCalls, k))].size) && len(data.(slotsSorter)[k].fields) == old(len(data.(slotsSorter)[now(sortSrc(sortCalls, k))].fields))
+//@   ensures forall k in 0..len(data.(slotsSorter)) :: forall m in 0..len(data.(slotsSorter)[k].fields) :: data.(slotsSorter)[k].fields[m] == old(data.(slotsSorter)[now(sortSrc(sortCalls, k))].fields[m])
+
+//@ func batchToRequests(connectionGroup []builderSlotGroup) (res []requestBatch)
+//@   requires forall j in 0..len(connectionGroup) :: groupOK(connectionGroup[j])
+//@   safety[C06,C10]
+//@   modifies backing(connectionGroup[0].slots), sortCalls
+//@   ensures[C06] forall j in 0..len(res) :: batchOK(res[j])
+//@   ensures[C06] len(res) >= len(connectionGroup)
+//@   loop 0
+//@     forget
+//@     modifies backing(connectionGroup[0].slots), sortCalls
+//@     invariant -1 <= rangeindex && rangeindex < len(connectionGroup) && len(result) >= rangeindex+1
+//@     invariant forall j in 0..len(result) :: batchOK(result[j])
+//@     invariant forall j in rangeindex+1..len(connectionGroup) :: groupOK(connectionGroup[j])
+//@   loop 1
+//@     forget
+//@     modifies batch
+//@     ghost r0 := len(result)
+//@     invariant -1 <= rangeindex && rangeindex < len(slotGroup.slots) && len(result) >= r0
+//@     invariant forall k in 0..len(slotGroup.slots)-1 :: slotGroup.slots[k].address <= slotGroup.slots[k+1].address
+//@     invariant forall k in 0..len(slotGroup.slots) :: slotOK(slotGroup, k)
+//@     invariant isFirstSeen <==> rangeindex >= 0
+//@     invariant rangeindex >= 0 ==> batch.Address == address && batch.UnitID == unitID && batch.StartAddress == firstAddress && firstAddress <= slotGroup.slots[rangeindex].address
+//@     invariant rangeindex == -1 ==> len(batch.fields) == 0 && batch.Quantity == 0
+//@     invariant forall m in 0..len(batch.fields) :: fieldInOpen(batch.fields[m], address, unitID, slotGroup.isForCoils, firstAddress, batch.Quantity)
+//@     invariant rangeindex >= 0 ==> len(batch.fields) >= 1 && batch.Quantity >= 1
+//@     invariant forall j in 0..len(result) :: batchOK(result[j])
